@@ -1,26 +1,4 @@
 // ---- tonic-side shims shared by the codec units ----
-// Status is seen through its code only (message text is diagnostics); `id` makes two statuses with the same code distinguishable
-pub struct Status { pub code: Code, pub id: Ghost<int> }
-impl Status {
-    // A-status-01: Status::{internal,out_of_range,resource_exhausted,ok,new} set the code they are named after
-    #[verifier::external_body]
-    pub fn internal<M>(m: M) -> (r: Status) ensures r.code == Code::Internal { unimplemented!() }
-    #[verifier::external_body]
-    pub fn out_of_range<M>(m: M) -> (r: Status) ensures r.code == Code::OutOfRange { unimplemented!() }
-    #[verifier::external_body]
-    pub fn resource_exhausted<M>(m: M) -> (r: Status) ensures r.code == Code::ResourceExhausted { unimplemented!() }
-    #[verifier::external_body]
-    pub fn ok<M>(m: M) -> (r: Status) ensures r.code == Code::Ok { unimplemented!() }
-    pub fn code(&self) -> (r: Code) ensures r == self.code { self.code }
-    // A-status-02: Status::clone is structural
-    #[verifier::external_body]
-    pub fn clone(&self) -> (r: Status) ensures r == *self { unimplemented!() }
-}
-#[derive(Clone, Copy, PartialEq, Eq)]
-pub struct StatusCode { pub c: u16 }
-#[derive(Debug)]
-pub struct HeaderMap { pub id: u64 }
-
 #[derive(Clone, Copy)]
 pub struct CompressionSettings { pub encoding: CompressionEncoding, pub buffer_growth_interval: usize }
 #[derive(Clone, Copy)]
